@@ -17,11 +17,13 @@ PROPS = {
     },
     "C09": {
         "design_ref": "DESIGN.md §3 C09",
+        "tiers": {"quick": {"harness_timeout_s": 900}},
         "functions_encoded": [
             "<T as ff::Serializable>::{serialize,deserialize} for T in Fp31, Fp32BitPrime, Fp61BitPrime, Boolean, Gf2..Gf40Bit, "
-            "BA3..BA256, UniqueTag, Seed, (Seed,Seed), Hash, AdditiveShare<T> (10 instantiations), StdArray<T,1>, StdArray<Fp32BitPrime,32>",
+            "BA3..BA256, UniqueTag, Seed, (Seed,Seed), Hash, AdditiveShare<T> (10 instantiations), StdArray<T,1>, StdArray<Fp32BitPrime,32>, [Fp61BitPrime;15]::serialize",
+            "secret_sharing::vector::transpose::{transpose_8x8, transpose_16x16, <[BA64;64] as TransposeFrom<&[BA64;64]>>::transpose_from}",
         ],
-        "bounds": "all 2^(8N) byte strings of the advertised length N for every listed type (N <= 128 bytes); no value sampling",
+        "bounds": "all 2^(8N) byte strings of the advertised length N for every listed type (N <= 128 bytes); all 8x8, 16x16 and 64x64 bit matrices (destination pre-filled with arbitrary data) with a symbolic (row, column)",
         "outside_claim": "RP25519/Fp25519 (curve arithmetic), QueryConfig through serde_urlencoded/serde_json, "
                          "Box<[Fp61BitPrime; ARRAY_LEN]> / [Hash; 14] proof arrays (heap Vec collection of 100+ elements)",
         "assumptions": [
@@ -33,7 +35,7 @@ PROPS = {
         "design_ref": "DESIGN.md §3 C10",
         "functions_encoded": [
             "report::hybrid::EncryptedHybridReport::<BA8,BA3>::{from_bytes,try_from,encap_key_mk,mk_ciphertext,encap_key_btt,btt_ciphertext,key_id}",
-            "report::hybrid::Encrypted{Impression,Conversion}Report::from_bytes",
+            "report::hybrid::Encrypted{Impression,Conversion}Report::from_bytes", "report::hybrid_info::{HybridImpressionInfo,HybridConversionInfo}::{from_bytes,to_enc_bytes}", "hpke::registry::KeyRegistry::{from_keys,empty,key,private_key}",
         ],
         "bounds": "records of every length 0..=146 bytes with arbitrary contents (length is a symbolic variable)",
         "outside_claim": "HPKE authenticity / round-trip (X25519+HKDF+AES-GCM on symbolic bytes), so 'a flipped bit makes decryption fail' is NOT claimed; records longer than 125 bytes",
